@@ -39,6 +39,7 @@ CLAIM_ADDENDUM = dict(
          "C08t_residual_eq: closure residual = sum of minors; C08t_closed_eq_open_on_M).  The trees with 3 and 4 nodes are proved a second time by evaluation.",
     note="Cited: the ODE lift from these identities to the returned curves (linear uniqueness for the minors, nonnegativity of the master solution, "
          "Picard-Lindeloef for the pair-based system).  Not proved as a statement about all trees: that tree_okb accepts every tree.")
+from . import common as C
 
 COMP = 'master'
 S_, I_, R_ = 0, 1, 2
@@ -275,9 +276,19 @@ def part(run, EoN, tier, props, report, cases_registry=None):
     info = {'props': 'coq/Props/C08t.v', 'ok': bool(props.get('ok'))}
     run.coverage['c08t'] = info
     ok, log = C.build_driver(COMP)
+    tie_bad = []; ident_bad = []
     if not ok:
-        report(run, 'C08/c08t/model-build', 'Model/Master.v / Extract/XMaster.v / ocaml/master_driver.ml do not build: ' + log[-400:], {'log': log[-2000:]}, no_input=True)
-        return
+        # the cone of Extract/XMaster.v contains Proofs/Rhs2GenP.v (generated right-hand side = model): when that breaks the
+        # extracted definitions are unavailable; the search for a failing input below does not need them
+        report(run, 'C08/c08t/model-build', 'Extract/XMaster.v (cone: Model/Master.v, Gen/Rhs2.v, Proofs/Rhs2GenP.v, C08tF.v) / ocaml/master_driver.ml do not build: ' + log[-400:],
+               {'log': log[-2000:]}, no_input=True)
+    else:
+        part_model(run, EoN, thorough, rng, info, tie_bad, ident_bad)
+    part_search(run, EoN, thorough, rng, info, tie_bad, ident_bad, report)
+
+
+def part_model(run, EoN, thorough, rng, info, tie_bad, ident_bad):
+    import numpy as np
     # ---- 1. tie + exact identities on random trees ------------------------------------------------
     jobs = []          # (line, kind, data)
     trees = [('edge', fixed_tree('edge')), ('path3', fixed_tree('path3')), ('path4', fixed_tree('path4')), ('star3', fixed_tree('star3'))]
@@ -299,7 +310,7 @@ def part(run, EoN, tier, props, report, cases_registry=None):
                 jobs.append(('CUT %s %d %d %s %d %s %d %d %d %d' % (pre, j, len(U), ' '.join(map(str, U)), len(pairs), ' '.join('%d %d' % ab for ab in pairs), a, i, b, k),
                              'cut', (name, adj, tr, rc, p, j, U, i, k, pairs)))
     outs = C.run_model([l for l, _, _ in jobs], COMP, timeout=150, shards=8)
-    n_eval = n_cut = n_pairs = 0; tie_bad = []; ident_bad = []
+    n_eval = n_cut = n_pairs = 0
     for (line, kind, data), o in zip(jobs, outs):
         if not o.startswith('OK'):
             tie_bad.append(('driver', data[0], o[:200])); continue
@@ -352,6 +363,9 @@ def part(run, EoN, tier, props, report, cases_registry=None):
         elif exp: acc += 1
         else: rej += 1
     info.update({'tree_okb_accepts_every_tree_up_to': 8 if thorough else 7, 'trees_accepted': acc, 'graphs_with_a_cycle_rejected': rej})
+
+
+def part_search(run, EoN, thorough, rng, info, tie_bad, ident_bad, report):
     # ---- 2. failing-input search at points of M ---------------------------------------------------
     found = 0; n_pts = 0; worst = 0.0
     pts = []
@@ -401,5 +415,5 @@ def part(run, EoN, tier, props, report, cases_registry=None):
             rp.update({'kind': 'c08t_rhs', 'params': x[-1]})
         report(run, 'C08/_dSIR_pair_based_/tree-rhs-exact', 'tree exactness of the pair-based right-hand side: %s (%d mismatches); no failing input of the public entry point was found '
                '(direction-dependent rates are not expressible there)' % (repr(x[:2])[:700], len(tie_bad)), rp, no_input=True)
-    run.assumptions += ['C08t: the lift from the right-hand-side identities on M to the returned curves is ODE uniqueness (cited); trees with >= 5 nodes: unclosed moment '
-                        'equations and closure residual identity evaluated exactly on random trees (validation), tangency and initial conditions proved for every graph']
+    run.assumptions += ['C08t: the lift from the right-hand-side identities on M to the returned curves is ODE uniqueness (cited); that the executable check tree_okb accepts '
+                        'every tree is evaluated (all trees up to the size bound of the run), not proved as a statement about all trees']
